@@ -188,6 +188,7 @@ where
 
                     b'c' => {
                         self.state = ParseState::Comment;
+                        self.clause.clear();
                     }
 
                     b @ b'1'..=b'9' => {
